@@ -7,7 +7,8 @@
 (*                                                                         *)
 (* A program is a sequence of fragments [kind, ctx]: kind = the fixable    *)
 (* diagnostic the fragment raises (missing_f, use_fstrings,                *)
-(* unused_variable, too_many_positional_args, unused_ignore), ctx = the    *)
+(* unused_variable, too_many_positional_args, unused_ignore, missing_await,*)
+(* unused comprehension variable), ctx = the                               *)
 (* syntactic context it is placed in (plain, inside an if block, spread    *)
 (* over several lines, followed by a comment, nested in a dict display    *)
 (* with ** unpacking / a lambda with keyword-only parameters / a call with *)
@@ -21,7 +22,8 @@
 (***************************************************************************)
 EXTENDS Naturals, Sequences, FiniteSets, TLC
 
-Kinds == {"missing_f", "use_fstrings", "unused_variable", "too_many_positional_args", "unused_ignore"}
+Kinds == {"missing_f", "use_fstrings", "unused_variable", "too_many_positional_args", "unused_ignore",
+          "missing_await", "unused_comp"}     \* unused_comp: unused comprehension variable, replaced by `_`
 Contexts == {"plain", "in_if", "multiline", "comment", "dict_unpack", "kwonly_lambda", "starred_call", "listcomp"}
 \* contexts that make sense for a kind
 ExprContexts == {"multiline", "dict_unpack", "kwonly_lambda", "starred_call", "listcomp"}   \* the fixable expression is nested
@@ -29,6 +31,8 @@ ExprContexts == {"multiline", "dict_unpack", "kwonly_lambda", "starred_call", "l
 \*  not inside a lambda or a comprehension)
 Allowed(k, c) == /\ ~(c \in ExprContexts /\ k \in {"unused_variable", "unused_ignore"})
                  /\ ~(k = "missing_f" /\ c \in {"kwonly_lambda", "listcomp"})
+                 \* (missing_await is raised on an expression STATEMENT: only the statement-level contexts)
+                 /\ ~(k = "missing_await" /\ c \in ExprContexts \ {"multiline"})
 
 CONSTANTS MaxFragments
 
